@@ -136,7 +136,10 @@ def run_drv(work, binary, tier, seed, tag, only=None):
     cursor = work.path("cursor_%s.txt" % tag)
     killers = []     # inputs that terminate the process (twice more, each alone)
     while True:
-        extra = ["-cursor", cursor] + (["-except", "\n".join(k["id"] for k in killers)] if killers else [])
+        # after an input that ends the process its whole family (the other truncations of the same file, ...) is
+        # left out: the same defect would end the process again and again
+        extra = ["-cursor", cursor] + (["-except", "\n".join(k["id"].rsplit("/", 1)[0] + "/*" for k in killers)]
+                                       if killers else [])
         try:
             out = run_driver(binary, args + extra, timeout=3000)
             break
